@@ -1,4 +1,5 @@
 import Fabio.Lemmas.C06Access
+import Fabio.Props.C06
 /-!
 C06 — the published table is only read: target and access decision depend on the request and the table alone.
 
@@ -40,6 +41,56 @@ theorem access_decision_any_schedule (rules0 : List Block) (ts : List TTh) (s : 
   intro t ht e he
   have h := ((published_table_any_schedule s.ring rules0 ts s sch hsteps ⟨rfl, hs⟩ hJ).2.2 t ht).2 e he
   simp only [denyByIP, h, and_self]
+
+/-- **End to end: whole requests on a published table, any interleaving.**  Goroutine `i` serves the requests of the
+clients `ass[i]`, each one the atomic pick, the plain read of the ring slot and the element-by-element scan of the
+target's rule list (`requestThread`); next to them any number of readers of the published table (`readerThread`:
+`Dump`, `String`, the admin API).  For EVERY schedule (also one that stops half-way), from any core state `s`:
+ring and rules are what was published; the ring indices handed out are exactly `{c, …, c+K-1} mod N` for the `K`
+picks performed (so every target gets its exact share — `rr_target_share_any_schedule`); every target read is the
+one the published ring holds at the index its request was handed; every completed scan decided by the published
+rules alone.  Proof: the run projects onto a run of the core model (`run_proj`: the reads and scans are stutter
+steps of the core state), to which `rr_exact_share_any_schedule` applies; the rest is
+`published_table_any_schedule`. -/
+theorem requests_on_published_table (ring0 : List Nat) (hN : 0 < ring0.length) (rules0 : List Block)
+    (ass : List (List Addr)) (readers : List Nat) (s : State) (sch : List Nat) :
+    let N := ring0.length
+    let ts := ass.map (requestThread N rules0.length) ++ readers.map readerThread
+    let r := run sch (ts.map STh.toT) { core := s, ring := ring0, rules := rules0 }
+    let K := r.1.core.total - s.total
+    r.1.ring = ring0 ∧ r.1.rules = rules0 ∧ s.total ≤ r.1.core.total ∧
+    (allPicksT r.2).Perm ((List.range' s.total K).map (· % N)) ∧
+    (∀ t ∈ r.2, (∀ e ∈ t.loc.targets, e.2 = ring0[e.1]?.getD 0) ∧
+                (∀ e ∈ t.loc.scans, e.2 = rules0.any (·.contains e.1))) := by
+  intro N ts r K
+  have hpub := published_table_any_schedule ring0 rules0 (ts.map STh.toT)
+    { core := s, ring := ring0, rules := rules0 } sch ?_ ⟨rfl, rfl⟩ ?_
+  · refine ⟨hpub.1, hpub.2.1, ?_, ?_, hpub.2.2⟩
+    all_goals
+      obtain ⟨sch', ts', e1, e2⟩ := run_proj sch ts { core := s, ring := ring0, rules := rules0 }
+      have hproj : ts.map STh.proj = (ass.map List.length ++ readers.map (fun _ => 0)).map (rrThreadRepaired N) := by
+        simp only [ts, List.map_append, List.map_map]
+        congr 1
+        · apply List.map_congr_left; intro as _; exact requestThread_proj N rules0.length as
+        · apply List.map_congr_left; intro k _; exact readerThread_proj N k
+      have hrr := Fabio.Props.C06.rr_exact_share_any_schedule N hN (ass.map List.length ++ readers.map (fun _ => 0)) s sch'
+      rw [← hproj, e2] at hrr
+      simp only [] at hrr
+    · exact hrr.1
+    · have hp := hrr.2.2.2
+      rw [allPicks_proj, ← e1] at hp
+      exact hp
+  · intro t ht f hf
+    simp only [List.mem_map] at ht
+    obtain ⟨st, _, rfl⟩ := ht
+    simp only [STh.toT, List.mem_map] at hf
+    obtain ⟨op, _, rfl⟩ := hf
+    exact sem_tableStep op
+  · intro t ht
+    simp only [List.mem_map] at ht
+    obtain ⟨st, hst, rfl⟩ := ht
+    simp only [ts, List.mem_append, List.mem_map] at hst
+    rcases hst with ⟨as, _, rfl⟩ | ⟨k, _, rfl⟩ <;> exact tLocalInv_init ring0 rules0
 
 /-- the scan over the whole list and the closed form agree sequentially (one goroutine, its own schedule) -/
 theorem scan_alone (rules0 : List Block) (a : Addr) (ring : List Nat) :
@@ -133,6 +184,30 @@ example :
       accessDenied (.allow rules0) { remote := some a } = false ∧
       accessDenied (.allow rules0) { remote := some b } = true ∧
       accessDenied (.deny rules0) { remote := some b, xff := [(false, some a)] } = true := by
+  decide
+
+/-- `requests_on_published_table` instantiated: two goroutines serving three requests on a ring of three and a list of
+two blocks, next to a reader, from cursor 7 — for every schedule -/
+example (sch : List Nat) (a b : Addr) :
+    let ts := [requestThread 3 2 [a, b], requestThread 3 2 [b], readerThread 2]
+    let r := run sch (ts.map STh.toT)
+      { core := { total := 7 }, ring := [2, 0, 1], rules := [⟨32, 167772160, 8⟩, ⟨32, 3232235520, 16⟩] }
+    r.1.ring = [2, 0, 1] ∧ (allPicksT r.2).Perm ((List.range' 7 (r.1.core.total - 7)).map (· % 3)) := by
+  intro ts r
+  have h := requests_on_published_table [2, 0, 1] (by decide) [⟨32, 167772160, 8⟩, ⟨32, 3232235520, 16⟩]
+    [[a, b], [b]] [2] { total := 7 } sch
+  exact ⟨h.1, h.2.2.2.1⟩
+
+/-- and on one concrete interleaving: indices 7,8,9 mod 3, the targets of the published ring, own decisions -/
+example :
+    let a : Addr := ⟨32, 167838211⟩
+    let b : Addr := ⟨32, 3325256713⟩
+    let ts := [requestThread 3 2 [a, b], requestThread 3 2 [b], readerThread 2]
+    let r := run ((List.replicate 12 [0, 1, 2]).flatten) (ts.map STh.toT)
+      { core := { total := 7 }, ring := [2, 0, 1], rules := [⟨32, 167772160, 8⟩, ⟨32, 3232235520, 16⟩] }
+    finished r.2 = true ∧ r.1.core.total = 10 ∧
+      (outputs r).map (·.targets) = [[(1, 0), (0, 2)], [(2, 1)], []] ∧
+      (outputs r).map (·.scans) = [[(a, true), (b, false)], [(b, false)], []] := by
   decide
 
 end Fabio.Props.C06Access
